@@ -55,6 +55,7 @@ type FuncContract struct {
 	Used      bool
 	Havoc     []string
 	Flags     [][]string // ghost flags: name set k:pat clear k:pat
+	DynCalls  []string   // "dyncall <func type> targets A, B": dynamic calls through that type go to one of the targets
 	Extra     map[string][]*Clause
 }
 
@@ -136,7 +137,7 @@ var clauseKeywords = map[string]bool{
 	"tags": true, "safetytags": true, "requires": true, "ensures": true, "atrelease": true, "modifies": true, "loop": true, "invariant": true,
 	"trusted": true, "pure": true, "safety": true, "nosafety": true, "inline": true, "acquires": true, "releases": true,
 	"site": true, "params": true, "hyp": true, "show": true, "vars": true, "smt": true, "protects": true, "inv": true, "guar": true,
-	"havoc": true, "ghostflag": true, "loopmodifies": true, "assume": true, "trust": true, "use": true,
+	"havoc": true, "ghostflag": true, "dyncall": true, "loopmodifies": true, "assume": true, "trust": true, "use": true,
 }
 var declKeywords = map[string]bool{
 	"func": true, "spec": true, "immutable": true, "monitor": true, "lemma": true, "structinv": true, "global": true, "axiom": true, "order": true, "libspec": true, "iface": true,
@@ -342,6 +343,8 @@ func parseContractFile(path, pkg string) (*ContractFile, error) {
 				case "ghostflag":
 					// ghostflag <name> set <kind>:<pattern> [clear <kind>:<pattern>]
 					curF.Flags = append(curF.Flags, strings.Fields(it.text))
+				case "dyncall":
+					curF.DynCalls = append(curF.DynCalls, it.text)
 				case "havoc":
 					curF.Havoc = append(curF.Havoc, strings.Fields(strings.ReplaceAll(it.text, ",", " "))...)
 				case "site":
